@@ -443,3 +443,12 @@ def c47_omega(viol, inp, param):
         return False
     style, missing, _ = json.loads(viol["detail"])
     return style == "italic" and missing.get("__set__") == [937]
+
+
+# ---- C10: a class written as a scalar beats a class list written later ---------------------------------------------
+@classifier("c10_scalar_class_beats_later_class_list")
+def c10_class_scalar(viol, inp, param):
+    if viol["aspect"] != "class-is-not-the-last-assignment":
+        return False
+    path, got, want = json.loads(viol["detail"])
+    return len(got) == 1 and len(want) > 1
